@@ -5,7 +5,7 @@
    Deviations that are genuine recorded defects are recognised by re-running the model under the policy that describes what the
    code does there ([num_code], key prefix parse, ...) and demanding byte equality with it. *)
 From Coq Require Import ZArith List Bool.
-From DG Require Import CaseFormat ProtoWireRef ThriftWire Json Num Base64 J2T.
+From DG Require Import CaseFormat ProtoWireRef ThriftWire Json Num Base64 J2T J2TWalk.
 Import ListNotations.
 Local Open Scope Z_scope.
 
@@ -236,7 +236,14 @@ Section Judge.
             else if res_is (j2t_do (mkPolicy num_code true true) D o t text) pre out then VKnown 208
             else VBad 5 [FZ c; FZ cp]
           | None =>
-            if res_is (j2t_do strict D o t (repair_ctl false false text)) pre out then VKnown 205 else VBad 6 [FZ cp]
+            if res_is (j2t_do strict D o t (repair_ctl false false text)) pre out then VKnown 205
+            (* finding 213: a top-level string literal cut off by the end of the text whose body is a multiple of 32 bytes is accepted
+               with its last byte taken for the closing quote (native advance_string: `ch` is read uninitialised when the SIMD
+               rounds consume everything) *)
+            else if is_str_ty t && (match text with c :: _ => c =? 34 | [] => false end)
+                    && ((Z.of_nat (length text) - 1) mod 32 =? 0)
+                    && res_is (j2t_do strict D o t (repair_ctl false false (removelast text ++ [34]))) pre out then VKnown 213
+            else VBad 6 [FZ cp]
           end
         end
     end.
@@ -311,4 +318,39 @@ Definition check_202 (fs : list field) : verdict :=
     | _ => VBad 97 []
     end
   | _ => VBad 99 []
+  end.
+
+(* ---- 211: the ALGORITHM-level model (J2TWalk.j2t_walk, the transcription of the portable converter's doRecurse) against the
+        PORTABLE converter (conv/j2tportable) on every generated document: bytes and error class must be exactly the walk's.
+        fields = descriptor, root type, option bits (1 DisallowUnknownField 2 String2Int64 4 NoBase64Binary 8 EnableValueMapping
+        16 WriteDefaultField 32 WriteRequireField 64 WriteOptionalField), text, error class, output. ---- *)
+Definition wopts02 (bits : Z) : wopts :=
+  mkWopts (Z.odd bits) (Z.odd (bits / 2)) (Z.odd (bits / 4)) (Z.odd (bits / 8)) (Z.odd (bits / 32)) (Z.odd (bits / 16)) (Z.odd (bits / 64)).
+
+Definition check_211 (fs : list field) : verdict :=
+  match parse_defs02 fs with
+  | None => VBad 99 []
+  | Some (D, r) =>
+    match parse_ty02 (S (length r)) r with
+    | Some (t, [FZ bits; FB text; FZ ec; FB out]) =>
+      if (ec =? 9) || (ec =? 10) then VBad 9 [] else
+      match j2t_walk D (wopts02 bits) t text with
+      | TUnmod => VSkip
+      | TOk b =>
+        if (ec =? 0) && bytes_eqb out b then
+          (* finding 212: a top-level JSON string for a descriptor that takes none is dropped: empty output, nil error
+             (proved for the walk: j2t_walk_string_mismatch_refuted); recognised exactly: the text is one string literal,
+             the type does not admit it, nothing was written *)
+          match b, json_parse_prefix text with
+          | [], Some (JStr x, r') =>
+            if negb (kind_ok (jopts_of (wopts02 bits)) t (JStr x)) && (match skip_ws r' with [] => true | _ => false end)
+               && (match skip_ws text with c :: _ => c =? 34 | [] => false end) && negb (is_str_ty t)
+            then VKnown 212 else VOk
+          | _, _ => VOk
+          end
+        else VBad 1 [FB b; FZ ec]
+      | TErr c => if ec =? 0 then VBad 2 [FZ c] else if ec =? c then VOk else VBad 3 [FZ c; FZ ec]
+      end
+    | _ => VBad 96 []
+    end
   end.
